@@ -49,7 +49,20 @@ func genF64(r *hx.RNG) (float64, string) {
 		}
 		return f, "power-of-two"
 	case 2:
-		return []float64{math.MaxFloat64, math.SmallestNonzeroFloat64, math.Nextafter(math.MaxFloat64, 0), 2.2250738585072014e-308, math.Nextafter(2.2250738585072014e-308, 0), 1, 0.1, 0.5, 1e22, 1e23, 9007199254740993}[r.Intn(11)], "extreme"
+		ex := []float64{math.MaxFloat64, math.SmallestNonzeroFloat64, math.Nextafter(math.MaxFloat64, 0), 2.2250738585072014e-308, math.Nextafter(2.2250738585072014e-308, 0), 1, 0.1, 0.5, 1e22, 1e23, 9007199254740993,
+			// integer type boundaries as floats, and their neighbours
+			1 << 31, 1 << 32, 1 << 52, 1 << 53, 1 << 62, 1 << 63, 18446744073709551616, 36893488147419103232, 1e19, 1e18, 1e20}
+		f := ex[r.Intn(len(ex))]
+		switch r.Intn(4) {
+		case 0:
+			f = math.Nextafter(f, 0)
+		case 1:
+			f = math.Nextafter(f, math.Inf(1))
+		}
+		if r.Bool() {
+			f = -f
+		}
+		return f, "extreme"
 	case 3:
 		return float64(int64(r.U64()>>uint(r.Range(11, 63)))) / float64(int64(1)<<uint(r.Range(0, 40))), "short-fraction"
 	case 4:
@@ -408,7 +421,7 @@ func c15ToFloat(c *hx.Ctx, r *hx.RNG) {
 	default:
 		v, cls = r.Finite(r.Range(1, 60), int64(r.Range(-50, 50))), "random"
 	}
-	x := hx.Mk(v, digitsOf(v)+uint(r.Intn(3)), r.Mode())
+	x := hx.MkR(r, v, digitsOf(v)+uint(r.Intn(3)), r.Mode())
 	name := "Float64"
 	if bits32 {
 		name = "Float32"
@@ -560,7 +573,7 @@ func c15Float(c *hx.Ctx, r *hx.RNG) {
 			v = r.Finite(r.Range(1, 120), int64(r.Range(-40, 40)))
 		}
 	}
-	x := hx.Mk(v, digitsOf(v)+uint(r.Intn(3)), r.Mode())
+	x := hx.MkR(r, v, digitsOf(v)+uint(r.Intn(3)), r.Mode())
 	bp := uint(r.Range(1, 300))
 	var z *big.Float
 	shape := r.Intn(3)
